@@ -73,7 +73,47 @@ class C12(SpecValueCheck):
         for i, codec in enumerate(CODECS):
             out.append({'codec': codec, 'ne': False})
             out.append({'codec': codec, 'ne': i % 2 == 0, 'extra': 1})
+        for codec in CODECS:
+            out.append({'codec': codec, 'ne': False, 'directed': True})
         return out
+
+    def directed(self, tier, shard):
+        """a module by construction in which CHOICE, SEQUENCE, ENUMERATED and lists are nested in each other in every
+        way (CHOICE as list element, list of lists, CHOICE in CHOICE, additions and groups, a recursive type); on it
+        EVERY position x EVERY applicable corruption is tried (no thinning)"""
+        from ..asn import Ty, Member, Group, Module, Spec, Rng
+        m = Module('M', 'AUTOMATIC')
+        R = lambda n: Ty('REF', ref=n)
+        m.types = [
+            ('E', Ty('ENUMERATED', enum_root=[('red', 0, False), ('green', 1, False), ('blue', 2, False)])),
+            ('P', Ty('SEQUENCE', root=[Member('x', Ty('INTEGER', rng=Rng(0, 100))), Member('color', R('E')),
+                                       Member('name', Ty('IA5String', size=Rng(1, 5)), optional=True)])),
+            ('C', Ty('CHOICE', root=[Member('point', R('P')), Member('flag', Ty('BOOLEAN')),
+                                     Member('deep', Ty('CHOICE', root=[Member('p2', R('P')), Member('n', Ty('NULL'))]))])),
+            ('L', Ty('SEQUENCE OF', elem=R('C'))),
+            ('S', Ty('SET OF', elem=R('C'))),
+            ('LL', Ty('SEQUENCE OF', elem=Ty('SEQUENCE OF', elem=R('P')))),
+            ('D', Ty('SEQUENCE', root=[Member('shapes', R('L')), Member('sset', R('S'), optional=True),
+                                       Member('one', R('C')), Member('grid', R('LL'))],
+                     ext=[Member('ext1', R('P'), optional=True),
+                          Group([Member('g1', R('C')), Member('g2', R('E'))])])),
+            ('T', Ty('SET', root=[Member('a', R('P')), Member('b', Ty('SEQUENCE OF', elem=R('E'))),
+                                  Member('c', Ty('BIT STRING', size=Rng(4, 4)))])),
+            ('Rc', Ty('SEQUENCE', root=[Member('v', Ty('INTEGER')), Member('next', R('Rc'), optional=True),
+                                        Member('kids', Ty('SEQUENCE OF', elem=R('Rc')))])),
+        ]
+        pt = {'x': 5, 'color': 'green', 'name': 'ab'}
+        p2 = {'x': 100, 'color': 'blue'}
+        d = {'shapes': [('point', pt), ('flag', True), ('deep', ('p2', p2)), ('deep', ('n', None))],
+             'sset': [('point', p2)], 'one': ('deep', ('p2', pt)), 'grid': [[pt, p2], [p2]],
+             'ext1': pt, 'g1': ('point', p2), 'g2': 'red'}
+        if shard['ne']:
+            return []
+        items = [('D', [d]), ('L', [[('point', pt), ('deep', ('p2', p2))]]), ('S', [[('deep', ('p2', pt))]]),
+                 ('LL', [[[pt], [p2, pt]]]), ('T', [{'a': pt, 'b': ['red', 'blue'], 'c': (b'\xa0', 4)}]),
+                 ('Rc', [{'v': 1, 'next': {'v': 2, 'kids': []}, 'kids': [{'v': 3, 'kids': []}]}])]
+        spec = Spec([m])
+        return [(spec, [('M', name, vals)]) for name, vals in items]
 
     def attempt(self, x, v2, label, tokens, deep, under_addition=False):
         rec = x.rec
@@ -177,7 +217,8 @@ class C12(SpecValueCheck):
                         probes.append((i, 'missing:' + m.name, nv, toks[i], deep))
                         break
         step = max(1, len(probes) // 25)
-        for (i, label, nv, tk, deep) in probes[::step][:25]:
+        chosen = probes[:600] if x.shard.get('directed') else probes[::step][:25]
+        for (i, label, nv, tk, deep) in chosen:
             v2 = common.map_values(x.spec, x.ty, x.modname, x.v,
                                    lambda idx, r, val: nv if idx == i else NOVALUE)
             rec.cls('probe:' + label.split(':')[0].split('<-')[0])
